@@ -12,7 +12,7 @@ IMPORTS = ('phylib.io.traces',)
 NCH = 3
 FACTORS = {'i1': 1, 'i2': 2, 'f05': 0.5}
 SDTYPES = (np.int64, np.uint64, np.int32, np.uint32)
-PATTERNS = [[0, 1], [0, 2], [2, -1], [0, -1], [1, 0]]
+PATTERNS = [[0, 1], [0, 2], [2, -1], [0, -1], [1, 0], [-1, 1]]
 
 
 def cells(n):
@@ -20,7 +20,7 @@ def cells(n):
 
 
 def chans_of(i):      # 0-based spike index -> the spec's rotation of channel patterns
-    return PATTERNS[i % 5]
+    return PATTERNS[i % 6]
 
 
 def decode(arr, factor=1):
